@@ -10,7 +10,7 @@
 // verbatim to the OCaml driver of the model), every other line is an observation that the model
 // must reproduce byte for byte.
 //   fen <hex>             -> "= <state>" | "E <code>"
-//   mk f t p              -> "= <state>" , "U cap cm ep hmc"
+//   mk f t p              -> "M <moveOk of the model, must be 1>" , "= <state>" , "U cap cm ep hmc"
 //   un                    -> "= <state>" , "R <all-but-emptyBB> <emptyBB>"   (restored vs snapshot before mk)
 //   mkb f t p             -> "B <partial>" after makeMoveB, "B <partial>" after unMakeMoveB
 //   see f t               -> "B <partial>" x2 (makeSEEMove / unMakeSEEMove)
@@ -206,6 +206,7 @@ struct Machine {
     }
     void opMk(const Move& m) {
         out << "mk " << m.from().asInt() << ' ' << m.to().asInt() << ' ' << m.promoteTo() << '\n';
+        out << "M 1\n";      // the model prints moveOk(pos, m): the premise of C02_unmake_make holds for this move
         snaps.push_back(pos);
         UndoInfo ui;
         pos.makeMove(m, ui);
